@@ -4,6 +4,8 @@ limit.  Model: Model/Observe.lean.
 -/
 import CoapLite.Lemmas.Observe
 import CoapLite.Lemmas.ObserveRefine
+import CoapLite.Lemmas.Shape.Observe
+import CoapLite.Lemmas.Shape.Global
 
 namespace CoapLite.C15
 open CoapLite Observe
@@ -157,5 +159,20 @@ example : (run [.limit 1, .reg 1 "p" [1], .chg "p" 5 true, .chg "p" 6 false, .ch
 example : (run [.limit 1, .reg 1 "p" [1], .chg "p" 5 true, .ack 1 5, .chg "p" 7 true]).get "p" =
     some { sequence := 2, observers := [{ endpoint := 1, token := [1], unacked := 1, mid := some 7 }] } := by
   decide
+
+/-! ### tie to the source: the state the model carries is the state the code carries
+
+`Shapes.*` (Generated/Shapes.lean) is re-read from /repo/src on every run: the field lists of the
+structs this property's model mirrors, and every construct that introduces state outside the values
+the API passes around (thread-locals, `static mut`, cells, locks, atomics). The model accounts for
+exactly these fields (Lemmas/Shape/*.lean say which model field mirrors which); a field or a
+global added to the code – a memo, a marker, a digest in place of the data – breaks this theorem
+even if no explored input behaves differently. -/
+theorem state_shape_matches_source :
+    Shapes.globalState = [] ∧
+    Shapes.observer = [("endpoint", "Endpoint"), ("token", "Vec<u8>"), ("unacknowledged_messages", "u16"), ("message_id", "Option<u16>")] ∧
+    Shapes.resource = [("observers", "Vec<Observer<Endpoint>>"), ("sequence", "u32")] ∧
+    Shapes.subject = [("resources", "BTreeMap<ResourcePath,Resource<Endpoint>>"), ("unacknowledged_limit", "u8"), ("phantom", "PhantomData<Endpoint>")] :=
+  ⟨ShapeTie.no_global_state, ShapeTie.observer, ShapeTie.resource, ShapeTie.subject⟩
 
 end CoapLite.C15
